@@ -242,7 +242,8 @@ impl Exec {
             }
         }
         if cancel_budget > 0 {
-            for a in self.suspended_actors() {
+            // (only actors the scenario spawned itself: the registry's on-demand instances are library-internal tasks)
+            for a in self.suspended_actors().into_iter().filter(|a| a.starts_with('a')) {
                 out.push(Decision::Cancel(a));
             }
         }
